@@ -43,6 +43,10 @@ theorem tie_getPositionAndCircle (n p d iv : Nat) (hs : iv ≤ d) (hiv : 0 < iv)
   rw [e2, Int.tdiv_eq_ediv_of_nonneg (by omega), Int.tmod_eq_emod_of_nonneg (by omega)]
   congr 1
 
+/-- the only numeric conversion in the file is `int(d / interval)` of a `time.Duration` quotient (int is
+64 bits wide on the supported platforms): no narrowing anywhere. -/
+theorem tie_conversions : conversions = ["int(d / tw.interval)"] := by decide
+
 /-- the constructor starts the wheel "at the previous virtual circle": `tickedPos = numSlots - 1`. -/
 theorem tie_initTickedPos (n : Nat) (hn : 0 < n) : initTickedPos n = ((TW.init n).tickedPos : Int) := by
   unfold initTickedPos TW.init
